@@ -6,7 +6,7 @@
     the theorems of C08 on where the writes go).  Known finding D15. *)
 From stdpp Require Import gmap list.
 From Coq Require Import NArith ZArith.
-From VFS Require Import Core.Types Core.Prog Core.Calls Base.MemFS Base.Handles Base.Store Layer.VfsPath Layer.Overlay
+From VFS Require Import Core.Types Core.Prog Core.Calls Base.MemFS Base.Handles Base.Store Layer.VfsPath Layer.Overlay Layer.Config Layer.Run
   Proofs.MemProofs Proofs.OvlProofs Proofs.OvlList Proofs.OvlLife Proofs.CopyFile Proofs.OvlAppend.
 
 Notation mstate := (gmap (list (list N)) memfile).
@@ -116,6 +116,28 @@ Example C09_example :
   snd (run bhandler (ovl_exists (v0, []) [(v1, [])] [[104%N]]) (mstore2 s0 s1 [] [] None)) = Ok false.
 Proof. vm_compute. repeat split; reflexivity. Qed.
 
+(** KNOWN FINDING (D28), kept visible: "the union behaves as an ordinary tree" is false of the faithful
+    model when a name ends in the marker suffix.  The marker of /a is the FILE /.whiteout/a_wo, the
+    markers of the children of a directory /a_wo live in the DIRECTORY /.whiteout/a_wo: removing
+    /a_wo/x through the overlay creates that directory, and the overlay then takes it for the marker
+    of /a.  Witness: the lower layer holds /a and /a_wo/x; remove_file /a_wo/x hides /a, which no
+    call has named (step 4: exists /a = true; step 6, after the removal: false; step 7: the lower
+    layer still has it). *)
+Definition marker_collision_case : case :=
+  mkCase [KMem; KMem]
+         [FWrap 0 (FBase 0 0); FWrap 1 (FBase 1 1); FWrap 2 (FOvl 2 (FBase 0 0, []) [(FBase 1 1, [])])]
+         [OCreateDir (PS 1 [JJoin [97%N]]);
+          OCreateDirAll (PS 1 [JJoin [97%N; 95%N; 119%N; 111%N]]);
+          OCreateFile (PS 1 [JJoin [97%N; 95%N; 119%N; 111%N; 47%N; 120%N]]); OHDrop 2;
+          OExists (PS 2 [JJoin [97%N]]);
+          ORemoveFile (PS 2 [JJoin [97%N; 95%N; 119%N; 111%N; 47%N; 120%N]]);
+          OExists (PS 2 [JJoin [97%N]]);
+          OExists (PS 1 [JJoin [97%N]])].
+Example C09_marker_collision_witness :
+  map fst (run_case 20 marker_collision_case) =
+  [Ok VUnit; Ok VUnit; Ok VUnit; Ok VUnit; Ok (VBool true); Ok VUnit; Ok (VBool false); Ok (VBool true)].
+Proof. vm_compute. reflexivity. Qed.
+
 Print Assumptions C09_served_from_first_layer.
 Print Assumptions C09_exists_is_union.
 Print Assumptions C09_example.
@@ -126,3 +148,4 @@ Print Assumptions C09_listing_merges_layers.
 Print Assumptions C09_create_over_lower_entry.
 Print Assumptions C09_remove_dir_with_lower_children.
 Print Assumptions C09_append_continues_lower_bytes.
+Print Assumptions C09_marker_collision_witness.
